@@ -253,6 +253,12 @@ func (s *Server) followCheckSome(addr string, followc int, auth string,
 	}
 	// reset the entire system.
 	log.Infof("reloading aof commands")
+	// reset everything the log is going to rebuild, hooks and channels
+	// included: a RENAME in the log fails while a stale hook is registered.
+	if _, _, err := s.cmdFLUSHDB(&Message{Args: []string{"flushdb"}}); err != nil {
+		log.Fatalf("could not reset before reloading aof. %s", err.Error())
+		return 0, err
+	}
 	s.reset()
 	if err := s.loadAOF(); err != nil {
 		log.Fatalf("could not reload aof, possible data loss. %s", err.Error())
